@@ -226,4 +226,152 @@ theorem solve_arity_after (hn : NegNeg alg) (e : E) (hwf : e.WF) (hl : LitOK alg
   unfold solve solveI solveFrom resetBufs
   simp only [solveFromF, hbb]
 
+/-! ### an error raised by the nested solver inside a call -/
+
+theorem tokLoop_call_argerr {name : String} {sym : List Char} {narg : Nat}
+    (h : rowFact dflt name sym (some (stdPar narg)) = true) (hne : sym ≠ []) (m : Nat)
+    (lw r r' : List Char) (b b1 : Bufs A) (args : List (List Char)) (msg : String)
+    (hs : SafeHead r) (hp : pushAtom alg (strip lw) b = .ok b1)
+    (hscan : parScan (stdPar narg) (r.length + 1) 1 ⟨[], r⟩ [] = some (⟨[], r'⟩, args))
+    (hlen : args.length = narg) (hargs : solveArgs sa ⟨[], []⟩ args = .error msg) :
+    tokLoop dflt alg sa (m + 1) ⟨lw, sym ++ r⟩ b = .error (b1, msg) := by
+  obtain ⟨row, hf, hsym, hpar⟩ := findOp_row h r hs
+  have hemp : (sym ++ r).isEmpty = false := by
+    cases sym with
+    | nil => exact absurd rfl hne
+    | cons c cs => rfl
+  have hn : (stdPar narg).narg = narg := rfl
+  simp [tokLoop, hemp, hf, Ex.popLeft, hp, hpar, Ex.remove, hsym, hscan, hn, hlen, hargs]
+
+theorem solveArgs_one_err (x : List Char) (msg : String) (st0 : Bufs A)
+    (h : ∀ st, (sa st x).2 = .error msg) : solveArgs sa st0 [x] = .error msg := by
+  have h0 := h st0
+  cases hh : sa st0 x with
+  | mk st' r =>
+    rw [hh] at h0
+    simp only at h0
+    subst h0
+    simp [solveArgs, hh]
+
+/-- the tokeniser loop at a one-argument call (parentheses included) whose argument the nested
+    solver rejects with `msg`: raises `msg`, whatever is pending on the left -/
+theorem tokLoop_argerr_pending (f : F1) (T rest : List Char) (hw : nest T 0 = some 0)
+    (hs : SafeHead (T ++ ')' :: rest)) (msg : String)
+    (h : ∀ st, (sa st (strip T)).2 = .error msg) (j : Nat)
+    (m : Nat) (lw p : List Char) (b : Bufs A) (hpend : Pending alg lit lw p)
+    (hm : (blanks j ++ (f.sym ++ (T ++ ')' :: rest))).length + 1 ≤ m) :
+    ∃ bb, tokLoop dflt alg sa m ⟨lw, blanks j ++ (f.sym ++ (T ++ ')' :: rest))⟩ b
+      = .error (bb, msg) := by
+  have hsym := f1Sym_props f
+  have hscan := scan_last 1 T rest [] [] hw
+  simp only [List.length_append, blanks_length] at hm
+  obtain ⟨q, rfl⟩ : ∃ q, m = (q + 1) + j := ⟨m - j - 1, by omega⟩
+  rw [tokLoop_blanks,
+    tokLoop_call_argerr alg sa (fact_fn1 f) hsym.1.1 q _ _ rest b _ _ msg hs
+      (pushAtom_pending alg lit (hpend.blanks alg lit j) b) (by simpa using hscan) rfl
+      (solveArgs_one_err sa _ _ _ (fun st => by simpa using h st))]
+  exact ⟨_, rfl⟩
+
+/-- fuel-general form: a one-argument call whose argument text is rejected by the nested solver,
+    after the text of any admissible item list -/
+theorem solveFromF_arg_err (n : Nat) (its : List LItem) (hadj : Adj its)
+    (hok : ∀ it ∈ its, ItemOK alg lit (nestedSolve alg n) it) (u : List Char)
+    (hu : Pre (its.flatMap itemLex) u) (f : F1) (T : List Char) (hw : nest T 0 = some 0)
+    (j : Nat) (rest : List Char) (hs : SafeHead (T ++ ')' :: rest)) (msg : String)
+    (h : (solveFromF dflt alg dfltSteps n ⟨[], []⟩ (strip T)).2 = .error msg) :
+    (solveFromF dflt alg dfltSteps (n + 1) ⟨[], []⟩
+      (u ++ (blanks j ++ (f.sym ++ (T ++ ')' :: rest))))).2 = .error msg := by
+  have hsafe : SafeHead (blanks j ++ (f.sym ++ (T ++ ')' :: rest))) :=
+    safeHead_blanks j _ ((f1Sym_props f).2.1.append (f1Sym_props f).1.1 _)
+  obtain ⟨bb, hbb⟩ := tok_items_err alg lit (nestedSolve alg n) _ msg hsafe
+    (fun m lw p b hpend hm =>
+      tokLoop_argerr_pending alg lit _ f T rest hw hs msg
+        (fun st => by simpa [nestedSolve, resetBufs] using h) j m lw p b hpend hm)
+    its hadj hok [] [] u ⟨[], []⟩
+    ((u ++ (blanks j ++ (f.sym ++ (T ++ ')' :: rest)))).length + 1) (pending_nil alg lit)
+    (fun h => absurd rfl h) hu (by simp)
+  unfold nestedSolve at hbb
+  simp only [solveFromF, hbb]
+
+/-- fuel-general form of `solve_framed_err` -/
+theorem solveFromF_framed_err (hn : NegNeg alg) (e : E) (hwf : e.WF) (hl : LitOK alg lit e)
+    (pre post : List LItem) (hpre : OprOnly pre) (hpost : OprOnly post)
+    (hadj : Adj (pre ++ items e ++ post)) (u : List Char) (k : Nat)
+    (hu : Pre ((pre ++ items e ++ post).flatMap itemLex) u) (m : String)
+    (hs : solveToks dflt alg dfltSteps
+      (pre.map (tokOf alg lit) ++ toks dflt alg lit e ++ post.map (tokOf alg lit)) = .error m)
+    (n : Nat) (hd : cdepth e ≤ n) :
+    (solveFromF dflt alg dfltSteps (n + 1) ⟨[], []⟩ (u ++ blanks k)).2 = .error m := by
+  have hargs := args_of_depth alg lit hn e hwf hl _ hd
+  have hok : ∀ it ∈ pre ++ items e ++ post, ItemOK alg lit (nestedSolve alg n) it := by
+    intro it hit
+    simp only [List.mem_append] at hit
+    rcases hit with (hit | hit) | hit
+    · exact itemOK_opr alg lit _ it (hpre it hit)
+    · exact itemOK_items alg lit _ e hl hargs it hit
+    · exact itemOK_opr alg lit _ it (hpost it hit)
+  have ht := tok_items alg lit (nestedSolve alg n) _ hadj hok
+    [] [] u ⟨[], []⟩ k ((u ++ blanks k).length + 1) (pending_nil alg lit) (fun h => absurd rfl h) hu
+    (by simp [blanks_length])
+  have ht' : tokLoop dflt alg (nestedSolve alg n) ((u ++ blanks k).length + 1)
+      ⟨[], u ++ blanks k⟩ ⟨[], []⟩
+      = .ok ⟨[], pre.map (tokOf alg lit) ++ toks dflt alg lit e ++ post.map (tokOf alg lit)⟩ := by
+    rw [ht, toks_items]; simp [pendTok]
+  exact solveFromF_of_tokens_err alg _ _ _ m ht' hs
+
+/-- A one-argument call (parentheses included) whose argument is a well-formed expression
+    followed by a dangling operator `o` that the step loop rejects, after the text of any
+    admissible item list: the nested solver raises, and so does `solve`. -/
+theorem solve_inner_err (hn : NegNeg alg) (its : List LItem) (hadj : Adj its) (u : List Char)
+    (hu : Pre (its.flatMap itemLex) u) (f : F1) (j : Nat) (rest : List Char)
+    (e' : E) (hwf' : e'.WF) (hl' : LitOK alg lit e') (o : OprK) (v : List Char) (k : Nat)
+    (hv : Pre (lexemes e' ++ [o.sym]) v) (m : String)
+    (hs : solveToks dflt alg dfltSteps (toks dflt alg lit e' ++ [tokOf alg lit (.opr o)]) = .error m)
+    (hok : ∀ it ∈ its, ItemOK alg lit
+      (nestedSolve alg (u ++ (blanks j ++ (f.sym ++ ((v ++ blanks k) ++ ')' :: rest)))).length) it) :
+    solve dflt alg dfltSteps (u ++ (blanks j ++ (f.sym ++ ((v ++ blanks k) ++ ')' :: rest))))
+      = .error m := by
+  have hgood : ∀ x ∈ lexemes e' ++ [o.sym], GoodLex x := by
+    intro x hx
+    simp only [List.mem_append, List.mem_singleton] at hx
+    rcases hx with hx | rfl
+    · exact lexemes_good alg lit e' hl' x hx
+    · exact (oprSym_props o).1
+  have hlen : (lexemes e').length + 1 ≤ v.length := by
+    have := Pre.length_le hv (fun x hx => (hgood x hx).1)
+    simpa using this
+  have hcd := cdepth_le_lexemes e'
+  -- the inner text
+  obtain ⟨v1, v2, rfl, hv1, hv2⟩ := Pre.append_inv hv
+  obtain ⟨jo, rfl⟩ := Pre.single_inv hv2
+  have hw : nest ((v1 ++ (blanks jo ++ o.sym)) ++ blanks k) 0 = some 0 := by
+    rw [nest_append, nest_append, nest_text alg lit e' hl' v1 hv1 0]
+    simp only [Option.bind_some]
+    rw [nest_append, nest_blanks]
+    simp only [Option.bind_some]
+    rw [nest_neutral _ (oprSym_props o).2]
+    exact nest_blanks k 0
+  have hsafe : SafeHead (((v1 ++ (blanks jo ++ o.sym)) ++ blanks k) ++ ')' :: rest) := by
+    rw [List.append_assoc, List.append_assoc]
+    exact safeHead_text alg lit e' hl' v1 _ hv1
+  have hstrip := strip_text k (Pre.append hv1 hv2) (by simp) hgood
+  obtain ⟨q, hq⟩ : ∃ q, (u ++ (blanks j ++ (f.sym ++ (((v1 ++ (blanks jo ++ o.sym)) ++ blanks k)
+      ++ ')' :: rest)))).length = q + 1 :=
+    ⟨(u ++ (blanks j ++ (f.sym ++ (((v1 ++ (blanks jo ++ o.sym)) ++ blanks k)
+      ++ ')' :: rest)))).length - 1, by simp; omega⟩
+  have hdq : cdepth e' ≤ q := by
+    simp only [List.length_append, List.length_cons, blanks_length] at hq hlen
+    omega
+  have hinner := solveFromF_framed_err alg lit hn e' hwf' hl' [] [.opr o] (fun _ h => by cases h)
+    (fun it h => by simp only [List.mem_singleton] at h; subst h; rfl)
+    (adj_post_opr alg lit e' hl' _) _ 0
+    (by simpa [lexemes_items, itemLex] using hstrip) m (by simpa using hs) q hdq
+  simp only [blanks, List.replicate_zero, List.append_nil] at hinner
+  rw [hq] at hok
+  have := solveFromF_arg_err alg lit (q + 1) its hadj hok u hu f _ hw j rest hsafe m
+    (by simpa [blanks] using hinner)
+  unfold solve solveI solveFrom resetBufs
+  rw [hq]
+  exact this
+
 end SciVerif.C01
